@@ -17,7 +17,7 @@ EXPLANATION = (
     "(inverse) arbitrary symbolic pre-state, a composite of m solver-chosen sub-changes that rope can perform on it: "
     "undo must restore the pre-state and redo the post-state exactly (two solver queries per path). (algebra) a sequence "
     "of up to D history operations with solver-chosen codes {do edit/create/move, undo, redo, undo(i), redo(i), "
-    "undo(drop)} and a solver-chosen max_history_items in 1..3; after every step the tree must equal (solver query) the "
+    "undo(drop)} and a solver-chosen max_history_items in 0..3; after every step the tree must equal (solver query) the "
     "tree obtained by a reference model that replays, from the initial state and with primitive file operations only, "
     "exactly the changes that are in force ('never having made' the undone ones); the undo list never exceeds the limit, "
     "a new change clears redo, undo/redo with nothing to undo/redo is refused with HistoryError and has no effect."
@@ -52,7 +52,7 @@ def instances(tier):
         for o1 in range(len(OPS_DIR)):
             for o2 in range(len(OPS_DIR)):
                 out.append(("algebra-dir.L%d.%s.%s" % (limit, OPS_DIR[o1], OPS_DIR[o2]), dict(kind="algebra", family="dir", limit=limit, first=[OPS_DIR.index("do-edit"), o1, o2], D=b["D"] + 1, tier=tier)))
-    for limit in (1, 2, 3):
+    for limit in (0, 1, 2, 3):  # 0: nothing may be kept, every undo is refused
         for o0 in range(4):
             for o1 in range(len(OPS)):
                 out.append(("algebra.L%d.%s.%s" % (limit, OPS[o0], OPS[o1]), dict(kind="algebra", limit=limit, first=[o0, o1], D=b["D"], tier=tier)))
